@@ -359,4 +359,60 @@ example : ∀ F, convert F ⟨0, 7, 4, 0, 0, 0⟩ (some 2) = some (.ok ((1 : Rat
   simp only [applyTag]
   decide +kernel
 
+/-! ### histories on one record object (decoded / assembled, attributes reassigned, decoded again)
+
+`runHistory` is the model of a long-lived record object; these theorems say that a conversion made at ANY point
+of ANY history is the specification's conversion over the attributes the record has at that moment — nothing
+from an earlier state of the object (a decode-time snapshot of B·10^K1 or 10^K2, say) can enter. -/
+
+/-- A history splits at any step: the steps after a prefix see exactly the attributes that prefix leaves. -/
+theorem history_split (F : Spec.Sensor.Fns) (v : Variant) (pre post : List Step) (r : Rec) :
+    runHistory F v r (pre ++ post) = runHistory F v r pre ++ runHistory F v (stateAfter r pre) post := by
+  induction pre generalizing r with
+  | nil => rfl
+  | cons s t ih =>
+    cases s <;> simp only [List.cons_append, runHistory, stateAfter, ih]
+
+/-- Forward clause along histories: whatever was done to the record before (assignments of any attribute,
+re-decoding, earlier conversions), converting a reading byte gives `L[(M·x + B·10^K1)·10^K2]` of the record's
+CURRENT factors, and the rest of the history goes on from the same attributes. -/
+theorem history_forward_current (F : Spec.Sensor.Fns) (hF : F.RealCubeRoot) (v : Variant) (r : Rec)
+    (pre post : List Step) (raw : Nat) (h : raw < 256) :
+    runHistory F v r (pre ++ .forward (some raw) :: post) =
+      runHistory F v r pre ++
+        .value (Spec.Sensor.convert F (stateAfter r pre).fmt (stateAfter r pre).lin
+          ⟨(stateAfter r pre).m, (stateAfter r pre).b, (stateAfter r pre).k1, (stateAfter r pre).k2⟩ (some raw)) ::
+        runHistory F v (stateAfter r pre) post := by
+  rw [history_split]
+  simp only [runHistory, forward_formula F hF _ raw h]
+
+/-- Round-trip clause along histories: after any history, converting a reading byte and handing the value
+straight back to the same record recovers the byte (current factors linear with M ≠ 0, not 1's-complement
+negative zero). -/
+theorem history_roundtrip_current (F : Spec.Sensor.Fns) (r : Rec) (pre post : List Step) (raw : Nat)
+    (hraw : raw < 256) (hm : (stateAfter r pre).m ≠ 0) (hlin : (stateAfter r pre).lin % 128 = 0)
+    (hz : ¬ ((stateAfter r pre).fmt = 1 ∧ raw = 0xFF)) :
+    ∃ y, y = Spec.Sensor.affine ⟨(stateAfter r pre).m, (stateAfter r pre).b, (stateAfter r pre).k1,
+            (stateAfter r pre).k2⟩ (Spec.Sensor.signed (Spec.Sensor.Fmt.ofCode (stateAfter r pre).fmt) raw : Int) ∧
+      runHistory F Variant.intended r (pre ++ .forward (some raw) :: .inverse y :: post) =
+        runHistory F Variant.intended r pre ++ .value (some (.ok y)) :: .raw (.ok (raw : Int)) ::
+          runHistory F Variant.intended (stateAfter r pre) post := by
+  obtain ⟨y, hc, hy, hv⟩ := inverse_roundtrip F (stateAfter r pre) raw hraw hm hlin hz
+  refine ⟨y, hy, ?_⟩
+  rw [history_split]
+  simp only [runHistory, hc, hv]
+
+/-- Assigning an attribute the conversions do not read changes no result. -/
+theorem history_other_irrelevant (F : Spec.Sensor.Fns) (v : Variant) (r : Rec) (pre post : List Step) :
+    runHistory F v r (pre ++ .other :: post) = runHistory F v r (pre ++ post) := by
+  rw [history_split, history_split]
+  simp only [runHistory]
+
+
+example : (runHistory exampleFns Variant.intended ⟨0, 0, 10, 0, 0, 0⟩
+    [.forward (some 3), .set .b 25, .set .k2 (-1), .forward (some 3), .redecode ⟨2, 0, 1, -10, 0, 0⟩,
+     .forward (some 0xFB)]).length = 3 ∧
+    stateAfter ⟨0, 0, 10, 0, 0, 0⟩ [.forward (some 3), .set .b 25, .set .k2 (-1)] = ⟨0, 0, 10, 25, 0, -1⟩ :=
+  ⟨rfl, rfl⟩
+
 end PyIpmi.Props.C17
